@@ -11,6 +11,7 @@
   definitions in document order) and explored on the implementation with generated placements.
 -/
 import Mistletoe.Model.Footnotes
+import Mistletoe.Model.Document
 namespace Mistletoe.Props.C07
 open Mistletoe Mistletoe.Footnotes
 
@@ -106,5 +107,45 @@ example : normalizeLabel "  Foo \n  BAR ".toList = "foo bar".toList := by decide
 example : normalizeLabel "ẞ".toList = normalizeLabel "SS".toList := by decide +kernel
 example : resolve (footnotesOf [("Foo".toList, "/first".toList, []), ("FOO".toList, "/second".toList, [])]) "fOO".toList
     = some ("/first".toList, []) := by decide +kernel
+
+
+/-! ### Position independence: the two-phase parse (over the whole-document model)
+
+  `Document.parseLines` (model of `Document.__init__`): the block phase runs over the WHOLE document,
+  containers included, collecting every definition handed to `append_footnotes` in call order
+  (`st.defs`); only then are the block tokens constructed, and every inline tokenization, at every
+  nesting depth, is given the one table built from all of them.  So whether a definition sits before or
+  after its use, at top level or inside a block quote or list item, cannot matter: there is one table. -/
+
+open Mistletoe.Document in
+/-- **All inline content of a document is resolved against one table, built from every definition of
+    the document**: if `Document(lines)` returns `d`, then there are a parse buffer `buf` and a final
+    block-phase state `st` with `blockPhase = (buf, st)`, the document's `footnotes` is
+    `footnotesOf st.defs` (first-wins over all definitions in call order, see `C07_first_wins`), and the
+    token tree is `make_tokens buf` computed with exactly that table. -/
+theorem C07_two_phase (cfg : Document.Cfg) (gas : Nat) (lines : List Str) (d : Doc)
+    (h : parseLines cfg gas lines = .ok d) :
+    ∃ buf st, Block.blockPhase cfg.block gas lines = .ok (buf, st) ∧
+      d.footnotes = Document.footnotesOf st.defs ∧
+      mkBlocks cfg (Document.footnotesOf st.defs) buf.entries = .ok d.kids := by
+  unfold parseLines at h
+  cases hb : Block.blockPhase cfg.block gas lines with
+  | err e => rw [hb] at h; cases h
+  | ok r =>
+    obtain ⟨buf, st⟩ := r
+    rw [hb] at h
+    cases hk : mkBlocks cfg (Document.footnotesOf st.defs) buf.entries with
+    | err e => simp [hk] at h
+    | ok kids =>
+      simp [hk] at h
+      subst h
+      exact ⟨buf, st, rfl, rfl, hk⟩
+
+open Mistletoe.Document in
+/-- **Definitions produce no output of their own**: the constructor of a `Footnote` entry returns no
+    token (`None`), whatever the table and the configuration. -/
+theorem C07_definitions_no_token (cfg : Document.Cfg) (fn : Footnotes.Table) (ms : List Block.FnMatch) (ln og : Nat) :
+    mkBlock cfg fn (.footnote ms ln og) = .ok none := by
+  simp [mkBlock]
 
 end Mistletoe.Props.C07
